@@ -48,7 +48,7 @@ def Ins.uses : Ins → List Nat
 def Ins.dst : Ins → Option Nat
   | .const d _ | .alloc d _ | .load d _ _ | .getElem d _ _ _ | .call d _ _ _ | .callInd d _ _ _ | .getGlobal d _ _
   | .mkClosure d _ | .getUp d _ _ | .getState d _ | .mem d _ | .delay d _ _ _ | .un _ d _ | .bin _ d _ _
-  | .unionWrap d _ _ _ _ | .unionTag d _ | .unionVal d _ _ => some d
+  | .unionWrap d _ _ _ _ | .unionTag d _ | .unionVal d _ _ | .uns d _ => some d
   | _ => none
 
 def subsetB (xs ys : List Nat) : Bool := xs.all fun x => ys.contains x
